@@ -9,10 +9,12 @@
    * whitespace insertion, both directions (acceptance, rejection and abort are preserved and the parse
      tree is the shifted one), memoization off (textX's default), for the class [ins_wf g cfg ins] and
      under the per-case decidable shifted-oracle hypothesis [shift_okb] (C22_invariant_partial); with
-     memoization on for the intersection with C19's class ctx_constant (C22_invariant_memo_partial);
+     memoization on for the intersection with C19's class ctx_constant, which admits unordered groups and a
+     single-terminal Comment rule (C22_invariant_memo_partial);
    * Comment-text insertion (C22_comment_invariant_partial) for grammars whose Comment rule is a single
      regex terminal and that never change the whitespace mode ([cmt_wf]), memoization off, for runs that
-     do not run out of fuel (the mutated run needs one more turn of the comment loop);
+     do not run out of fuel (the mutated run needs one more turn of the comment loop); by fuel monotonicity
+     (C19's Proofs/PegFuel.v) each run may have its own sufficient fuel (the *_any_fuel_partial forms);
    all hypotheses are decidable and evaluated by ./check C22 on every generated case.
    * whole-run form of "only the active set is skipped" for grammars without Comment rule (any rule
      modifiers, memoization off): an accepted input is tiled from 0 to its end by characters of the
@@ -20,7 +22,7 @@
    NOT proved: Comment insertion for Comment rules with several alternatives / sub-rules and with
    memoization on; whitespace insertion with memoization on outside ctx_constant.  Outside cmt_wf's
    mode-constancy the statement is false (C22_refuted_comment_modes). *)
-From TxV Require Import Core.Base Model.PegSyntax Model.Peg Proofs.PegProofs Proofs.PegMemo.
+From TxV Require Import Core.Base Model.PegSyntax Model.Peg Proofs.PegProofs Proofs.PegMemo Proofs.PegFuel.
 From TxV Require Import Model.PegWsDefs
      Proofs.PegWs Proofs.PegWsSim Proofs.PegCmtSim Proofs.PegWsMemo Proofs.PegGap Proofs.PegWsWit.
 
@@ -162,3 +164,31 @@ Example C22_tiled_nonvacuous :
   all_ws g_plain c_default = c_ws c_default.
 Proof. exact plain_tiled_nonvacuous. Qed.
 Print Assumptions C22_tiled_nonvacuous.
+
+(* each run with its own sufficient fuel (fuel monotonicity, Proofs/PegFuel.v) *)
+Theorem C22_comment_invariant_any_fuel_partial : forall g cfg orc orc' f f' a w1 c w2 b,
+  cmt_wf g cfg = true ->
+  cmt_ins_okb g cfg orc' a w1 c w2 = true ->
+  shift_okb g (a ++ b) orc (a ++ (w1 ++ c ++ w2) ++ b) orc' (length a) (length (w1 ++ c ++ w2)) = true ->
+  PegWsDefs.not_aborted (run g cfg orc false f (a ++ b)) ->
+  PegWsDefs.not_aborted (run g cfg orc' false f' (a ++ (w1 ++ c ++ w2) ++ b)) ->
+  outcome_shifted (length a) (length (w1 ++ c ++ w2))
+                  (run g cfg orc false f (a ++ b)) (run g cfg orc' false f' (a ++ (w1 ++ c ++ w2) ++ b)).
+Proof. exact comment_insert_invariant_any_fuel. Qed.
+Print Assumptions C22_comment_invariant_any_fuel_partial.
+
+Theorem C22_invariant_any_fuel_partial : forall g cfg orc orc' f f' a ins b,
+  ins_wf g cfg ins = true ->
+  shift_okb g (a ++ b) orc (a ++ ins ++ b) orc' (length a) (length ins) = true ->
+  PegWsDefs.not_aborted (run g cfg orc false f (a ++ b)) ->
+  PegWsDefs.not_aborted (run g cfg orc' false f' (a ++ ins ++ b)) ->
+  outcome_shifted (length a) (length ins)
+                  (run g cfg orc false f (a ++ b)) (run g cfg orc' false f' (a ++ ins ++ b)).
+Proof. exact ws_insert_invariant_any_fuel. Qed.
+Print Assumptions C22_invariant_any_fuel_partial.
+
+Example C22_any_fuel_nonvacuous :
+  PegWsDefs.not_aborted (run g_cmt1 c_default cmt1_orc false 20 ([97] ++ [32;98])%N) /\
+  PegWsDefs.not_aborted (run g_cmt1 c_default cmt1_orc' false 50 ([97] ++ ([32] ++ [47;47;32;105] ++ [10]) ++ [32;98])%N).
+Proof. exact cmt1_any_fuel. Qed.
+Print Assumptions C22_any_fuel_nonvacuous.
